@@ -168,6 +168,11 @@ def main():
         "connections_per_case": "2..5, at least one flooder (3..8 calls per burst), single-shot clients, "
                                 "optional closures / read errors / write errors / stream transitions",
     })
+    # ---- the real Server::run of zlink-tokio and zlink-smol over real Unix sockets, one thread,
+    # client bytes written at fixed points of the service handler (lib/rsrv.py): the transports'
+    # read/accept futures are dropped and re-created by the server loop on every turn
+    import rsrv
+    rsrv.run_rsrv(ck)
     ck.finish(rule=sg.RULE)
 
 
